@@ -132,7 +132,7 @@ def gen_case(seed, tier, i):
         plan.append({'ref': list(r[:4]) + [r[4]], 'new': 'nn_%d' % rng.randint(1, 99),
                      'apply': rng.random() < 0.65, 'inspect': rng.randint(0, 2),
                      'unsaved': rng.random() < 0.25, 'from_disk': rng.random() < 0.5,
-                     'order': rng.choice(['code_first', 'diff_first', 'diff_first']),
+                     'order': rng.choice(['code_first', 'diff_first', 'diff_first', 'cf_diff_first']),
                      # renaming a name to itself is legal: the announced new code equals the buffer text
                      'identity': rng.random() < 0.12,
                      'inspect_after': rng.random() < 0.6,
@@ -463,8 +463,9 @@ class C07(base.Engine):
                                 stats['multi_file'] += 1
                             originals = dict(model.files)
                             originals[path] = script_text
-                            if res.get('diff_again') != res.get('diff'):
-                                problems.append(('get_diff_not_repeatable', {'op': ev['i'], 'kind': kind, 'args': args}))
+                            if res.get('diff_again') != res.get('diff') or res.get('cf_diff_unstable'):
+                                problems.append(('get_diff_not_repeatable', {'op': ev['i'], 'kind': kind, 'args': args,
+                                                                             'files': res.get('cf_diff_unstable')}))
                             for pr in check_diff(res, originals):
                                 f = pr[1].get('file') if isinstance(pr[1], dict) else \
                                     (pr[1] if isinstance(pr[1], str) else None)
